@@ -626,7 +626,15 @@ func (g *group) issue(i int, start <-chan struct{}) {
 func (g *group) bounds(m *member) {
 	o := m.obs
 	o.RHi = m.rhi
-	if m.entered {
+	// requests for height 0 cannot be told apart: with several such members
+	// only the call bracket is used
+	zeros := 0
+	for _, x := range g.ms {
+		if x.h == 0 {
+			zeros++
+		}
+	}
+	if m.entered && (m.h != 0 || zeros == 1) {
 		if m.entryC > o.RLo {
 			o.RLo = m.entryC
 		}
@@ -968,7 +976,7 @@ func (r *runner) doSync() {
 			st.mu.Lock()
 			cl := st.closed
 			st.mu.Unlock()
-			if cl && !st.endReq.Load() && !st.has(id) {
+			if cl && !st.endReq.Load() && !r.stopBegun.Load() && !st.has(id) {
 				r.fail("not-delivered", fmt.Sprintf("live reading subscriber %d did not receive event %d: its channel was closed although it was not cancelled", i, id))
 				break
 			}
